@@ -318,6 +318,7 @@ fn run_kind(kind: &str, n: usize, seed: u64) -> Stats {
             0 => 40,
             1 => 200_000 / if kind == "svg" { 4 } else { 1 },
             2 => 20_000,
+            3 => 1,
             _ => 0,
         };
         let s = assets::synth(kind, &mut rng, hint);
@@ -520,6 +521,9 @@ fn main() {
     }
     let n: usize = args.first().and_then(|a| a.parse().ok()).unwrap_or(200);
     let only: Vec<String> = args.iter().filter(|a| a.parse::<usize>().is_err()).cloned().collect();
+    // scratch dir for dumped counter-examples: wiped per run
+    let _ = std::fs::remove_dir_all("/verif/work/toolkit");
+    let _ = std::fs::create_dir_all("/verif/work/toolkit");
     let seed: u64 = std::env::var("VERIF_SEED").ok().and_then(|s| s.parse().ok()).unwrap_or(1);
     let mut kinds: Vec<&str> = assets::KINDS.to_vec();
     kinds.push(assets::SIDECAR);
